@@ -218,12 +218,26 @@ def loc_rule(ctx):
         g = vp[0]
         bad = []
         n_l = 0
-        for n in sir.walk(g.node, into_items=True):
-            if n.get("k") == "struct" and n["segs"][-1] == "LitStr":
-                n_l += 1
-                loc = [sir.expr_str(fl["e"]).replace(" ", "") for fl in n["fields"] if fl["name"] == "location"]
-                if loc and loc[0] not in ("location", "start_pos..start_pos"):
-                    bad.append(loc[0])
+        for h in sir.reach(tc, g):
+            # in a private helper the position is a parameter: every call from the text parser must hand it `start_pos`
+            handed = {}
+            if h is not g:
+                pn = h.param_names()
+                for c_ in sir.walk(g.node, into_items=True):
+                    if c_.get("k") in ("call", "mcall") and (sir.call_name(c_) or c_.get("m") or "").split("::")[-1] == h.name:
+                        args = ([c_["recv"]] if c_.get("k") == "mcall" and pn and pn[0] == "self" else []) + c_["args"]
+                        for pname, a_ in zip(pn, args):
+                            handed.setdefault(pname, set()).add(sir.expr_str(sir.strip_ref(a_)).replace(" ", ""))
+            for n in sir.walk(h.node, into_items=True):
+                if n.get("k") == "struct" and n["segs"][-1] == "LitStr":
+                    n_l += 1
+                    loc = [sir.expr_str(fl["e"]).replace(" ", "") for fl in n["fields"] if fl["name"] == "location"]
+                    if not loc or loc[0] == "location":
+                        continue
+                    m_ = re.fullmatch(r"(\w+)\.\.(\w+)", loc[0])
+                    okl = bool(m_) and m_.group(1) == m_.group(2) and (m_.group(1) == "start_pos" or handed.get(m_.group(1)) == {"start_pos"})
+                    if not okl:
+                        bad.append(loc[0])
         obs.append(ob("C16.loc/text-after-binding", not bad and n_l >= 2, ctx.where(g), "string pieces of mixed text start at the position taken in front of them (`start_pos`) or keep the static value's own location: %s" % (bad or "ok"),
                       witness=None if not bad else "in `{{w}}rpx` the text `rpx` is located on the `}}`"))
         sp = [n for n in sir.walk(g.body) if n.get("k") == "local" and n["pat"].get("name") == "start_pos" and n.get("init") is not None and sir.expr_str(n["init"]).replace(" ", "") == "ps.position()"]
